@@ -706,6 +706,23 @@ def c15_templates(tier):
             finish(f"emptymini_{s}", ops, [{"op": "reopen", "mode": "strict"}, {"op": "create_stream", "p": sp(["zz"])},
                                           {"op": "write", "p": sp(["zz"]), "off": 0, "runs": [[7, s]]},
                                           {"op": "remove_stream", "p": sp(["zz"])}])
+        # many repetitions of slot-only cycles: a directory slot lost per repetition shows as growth only when the
+        # lost slots cross a directory-sector boundary (every 4th repetition in version 3, every 32nd in version 4)
+        for order in ("fifo", "lifo"):
+            for payload in (0, 10):
+                cyc = [{"op": "create_stream", "p": sp(["zz"])}, {"op": "create_stream", "p": sp(["quux"])}]
+                if payload:
+                    cyc += [{"op": "write", "p": sp(["zz"]), "off": 0, "runs": [[7, payload]]},
+                            {"op": "write", "p": sp(["quux"]), "off": 0, "runs": [[8, payload]]}]
+                first, second = ("zz", "quux") if order == "fifo" else ("quux", "zz")
+                cyc += [{"op": "remove_stream", "p": sp([first])}, {"op": "remove_stream", "p": sp([second])}]
+                ops = [{"op": "create_stream", "p": sp(["a"])}, {"op": "write", "p": sp(["a"]), "off": 0, "runs": [[5, 64]]}]
+                ops[-1]["mark"] = "cycle_base"
+                for rep in range(40 if ver == 4 else 12):
+                    for o in cyc:
+                        ops.append(dict(o))
+                    ops[-1]["mark"] = "rep_end"
+                out.append({"id": f"cyc_v{ver}_slots_{order}_{payload}", "ver": ver, "heavy": "last", "ops": ops})
         base = C15_FILLERS + ["k1", "k2", "k3", "quux", "AB", "a"]          # 30 distinct names of dictionary A
         paths = [[n] for n in base] + [[base[0], n] for n in base[1:]] + [[base[1], n] for n in base[2:]]
         for live in (per - 1, 2 * per - 1):            # live entries besides the root: highest live slot = last of a sector
